@@ -301,7 +301,7 @@ class G:
             params.append(p)
             pos = 1
         if response and self.chance(50):
-            n = self.d(st.integers(1, 2))
+            n = self.d(st.integers(1, 3))
             rp = self.d(st.integers(0, 2))
             params.append({"pk": "matchreq", "name": self.nid("mr"), "pos": pos, "_end": pos + n,
                            "rpos": rp, "n": n})
